@@ -32,3 +32,24 @@ def run_counter_separation(bv, c):
     run_counter_basic(bv, c)
     for j in range(len(bv)):
         pass
+
+
+@spec
+def is_prefix_sums(a, p):
+    return (len(p) == len(a) and implies(len(a) >= 1, p[0] == a[0])
+            and forall(1, len(a), lambda k: p[k] == p[k - 1] + a[k]))
+
+
+@lemma(args={"a": "array[int]", "p": "array[int]"})
+def prefix_sums_monotone(a, p):
+    """Prefix sums of a non-negative sequence are non-negative and non-decreasing."""
+    requires(is_prefix_sums(a, p))
+    requires(forall(0, len(a), lambda k: a[k] >= 0))
+    ensures(forall(0, len(a), lambda j: p[j] >= 0))
+    ensures(forall(0, len(a), lambda j: forall(0, j + 1, lambda i: p[i] <= p[j])))
+    loop(0, inv=lambda it: forall(0, it, lambda j: p[j] >= 0))
+    loop(1, inv=lambda it: forall(0, it, lambda j: forall(0, j + 1, lambda i: p[i] <= p[j])))
+    for j in range(len(a)):
+        pass
+    for j in range(len(a)):
+        pass
